@@ -49,6 +49,8 @@ THEOREMS = [
     "Verif.C15.pooled_density_integrates_to_one",
     "Verif.C15.discrete_sums_to_one",
     "Verif.C15.discrete_sum_excluding_tmax_lt_one",
+    "Verif.C15.continuous_integrates_to_one_unbounded",
+    "Verif.C15.discrete_sums_to_one_unbounded",
     "Verif.C15.relabel_invariant",
     "Verif.C15.relabel_invariant_logLik",
     "Verif.C15.amplitude_constraint_one_free",
@@ -58,6 +60,9 @@ THEOREMS = [
     "Verif.C15.extraction_spec",
     "Verif.C15.extraction_refuses_iff",
     "Verif.C15.extraction_removed_flag",
+    "Verif.C15.extraction_spec_observed_minimum",
+    "Verif.C15.observed_minimum_is_least",
+    "Verif.C15.extraction_observed_minimum_never_refuses",
     "Verif.C15.gradient_continuous_correct_amp",
     "Verif.C15.gradient_continuous_correct_tau",
     "Verif.C15.gradient_discrete_correct_amp",
